@@ -196,7 +196,7 @@ where
 
 macro_rules! elems {
     ($m:ident, $($a:tt)*) => {
-        $m!(TrZ, $($a)*); $m!((), $($a)*); $m!(u8, $($a)*); $m!(Tr<1>, $($a)*); $m!(u64, $($a)*); $m!(Tr<5>, $($a)*); $m!([u8; 24], $($a)*); $m!(Tr<0>, $($a)*); $m!(u16, $($a)*); $m!(Tr<31>, $($a)*);
+        $m!(TrZ, $($a)*); $m!((), $($a)*); $m!(u8, $($a)*); $m!(Tr<1>, $($a)*); $m!(u64, $($a)*); $m!(Tr<5>, $($a)*); $m!([u8; 24], $($a)*); $m!(Tr<0>, $($a)*); $m!(u16, $($a)*); $m!(Tr<31>, $($a)*); $m!(B3, $($a)*); $m!(A64, $($a)*); $m!(TrA, $($a)*);
     };
 }
 
